@@ -47,6 +47,10 @@ def gen_base(rng, want):
         # adapters on R2 only
         sc.ads2 = [G.gen_adapter(rng, 0, upper=True, prefix="bd", kinds=kinds)]
         sc.ads1 = []
+    if len(sc.ads1) >= 2 and rng.random() < want.get("shared_names_p", 0.0):
+        # two differently sequenced adapters under one name
+        sc.ads1[1]["name"] = sc.ads1[0]["name"]
+        sc.ads1[1]["argv"] = [sc.ads1[1]["flag"], f"{sc.ads1[1]['name']}={sc.ads1[1]['spec']}"]
     sc.pair_adapters = False
     if sc.paired and sc.ads1 and sc.ads2 and rng.random() < 0.2 and want.get("demux") != "combinatorial":
         simple = ["a", "g", "a$", "g^"]
@@ -336,7 +340,7 @@ def output_layout(sc):
     if opts.get("too_long_out"):
         files["too_long"] = ("tl1.fq", "tl2.fq" if p else None)
     if sc.demux == "normal":
-        names = [a["name"] for a in sc.ads1]
+        names = list(dict.fromkeys(a["name"] for a in sc.ads1))
         for n in names:
             files["demux:" + n] = (f"dm.{n}.1.fq", f"dm.{n}.2.fq" if p else None)
         if opts.get("untrimmed_output"):
@@ -344,8 +348,8 @@ def output_layout(sc):
         elif not opts.get("discard_untrimmed"):
             files["demux:unknown"] = ("dm.unknown.1.fq", "dm.unknown.2.fq" if p else None)
     elif sc.demux == "combinatorial":
-        n1s = [a["name"] for a in sc.ads1]
-        n2s = [a["name"] for a in sc.ads2]
+        n1s = list(dict.fromkeys(a["name"] for a in sc.ads1))
+        n2s = list(dict.fromkeys(a["name"] for a in sc.ads2))
         combos = list(itertools.product(n1s, n2s))
         if not opts.get("discard_untrimmed"):
             combos += [("unknown", "unknown")] + [("unknown", b) for b in n2s] + [(a, "unknown") for a in n1s]
